@@ -79,6 +79,10 @@
 #include <sys/wait.h> // WIFEXITED and friends
 #endif
 
+#ifdef DANMAR_CPPCHECK_VERIF
+#include "verifhooks.h"
+#endif
+
 namespace {
     class CmdLineLoggerStd : public CmdLineLogger
     {
@@ -474,8 +478,14 @@ int CppCheckExecutor::check_internal(const Settings& settings, Suppressions& sup
             timerResults->showResults(5);
     }
 
+#ifdef DANMAR_CPPCHECK_VERIF
+    verifhooks::crashPoint("wholeprogram-begin");
+#endif
     // TODO: is this run again instead of using previously cached results?
     returnValue |= cppcheck.analyseWholeProgram(settings.buildDir, mFiles, mFileSettings, stdLogger.getCtuInfo());
+#ifdef DANMAR_CPPCHECK_VERIF
+    verifhooks::crashPoint("wholeprogram-end");
+#endif
 
     if ((settings.severity.isEnabled(Severity::information) || settings.checkConfiguration) && !supprs.nomsg.getSuppressions().empty()) {
         const bool err = reportUnmatchedSuppressions(settings, supprs.nomsg, mFiles, mFileSettings, stdLogger);
@@ -483,7 +493,13 @@ int CppCheckExecutor::check_internal(const Settings& settings, Suppressions& sup
             returnValue = settings.exitCode;
     }
 
+#ifdef DANMAR_CPPCHECK_VERIF
+    verifhooks::crashPoint("unmatched-done");
+#endif
     stdLogger.writeCheckersReport(supprs);
+#ifdef DANMAR_CPPCHECK_VERIF
+    verifhooks::crashPoint("checkersreport-done");
+#endif
 
     if (settings.outputFormat == Settings::OutputFormat::xml) {
         if (settings.xml_version == 3)
@@ -668,6 +684,9 @@ void StdLogger::reportErr(const ErrorMessage &msg)
     if (!mSettings.emitDuplicates && !mShownErrors.insert(msgStr).second)
         return;
 
+#ifdef DANMAR_CPPCHECK_VERIF
+    verifhooks::crashPoint("report-finding");
+#endif
     if (mSettings.outputFormat == Settings::OutputFormat::sarif) {
         mSarifReport.addFinding(std::move(msgCopy));
     } else if (mSettings.outputFormat == Settings::OutputFormat::xml) {
